@@ -24,7 +24,8 @@ Lemma s_insert_lawful k w :
                                      | None => elems (self w) ++ [(k, tt)]
                                      end) /\
                   (find_idx ck (ck k) (elems (self w)) = None -> len (self w) < cap (self w)))
-     (fun w' => stable w w' /\ find_idx ck (ck k) (elems (self w)) = None /\ len (self w) = cap (self w)) w.
+     (fun w' => self w' = self w /\ logged w w' (ev_drops (idK E k ++ idV E tt)) /\
+                find_idx ck (ck k) (elems (self w)) = None /\ len (self w) = cap (self w)) w.
 Proof.
   intros Hw. unfold s_insert. apply wp_bind.
   eapply wp_mono; [apply (insert_lawful E debug ck cq HL k tt w Hw) | | intros w' H; exact H]; cbn beta.
@@ -52,7 +53,8 @@ Lemma s_replace_lawful k w :
                                      | None => elems (self w) ++ [(k, tt)]
                                      end) /\
                   (find_idx ck (ck k) (elems (self w)) = None -> len (self w) < cap (self w)))
-     (fun w' => stable w w' /\ find_idx ck (ck k) (elems (self w)) = None /\ len (self w) = cap (self w)) w.
+     (fun w' => self w' = self w /\ logged w w' (ev_drops (idK E k ++ idV E tt)) /\
+                find_idx ck (ck k) (elems (self w)) = None /\ len (self w) = cap (self w)) w.
 Proof.
   intros Hw. unfold s_replace. apply wp_bind.
   eapply wp_mono; [apply (insert_ii_lawful E debug ck cq HL k tt true w Hw) | | intros w' H; exact H]; cbn beta.
@@ -395,7 +397,7 @@ Proof.
       destruct (Nat.ltb_spec (len (self w)) n) as [_|Hge]; [|lia]. cbn [fst snd]. subst r.
       split; [reflexivity|]. split; [|congruence]. split; [exact Hw'|]. rewrite He.
       apply sp_app; assumption.
-  - intros w' ([Hs _] & Hf & Hlen). split; [|exact Hs]. unfold f_insert.
+  - intros w' (Hs & _ & Hf & Hlen). split; [|exact Hs]. unfold f_insert.
     destruct (sp_none _ _ _ Hu Hp Hf) as [Hd _]. rewrite Hd. rewrite (sabs_length _ _ Ha).
     destruct (Nat.ltb_spec (len (self w)) n) as [Hlt|_]; [lia | reflexivity].
 Qed.
@@ -428,7 +430,7 @@ Proof.
       destruct (Nat.ltb_spec (len (self w)) n) as [_|Hge]; [|lia]. cbn [fst snd option_map] in *. subst r.
       split; [reflexivity|]. split; [|congruence]. split; [exact Hw'|]. rewrite He.
       apply sp_app; assumption.
-  - intros w' ([Hs _] & Hf & Hlen). unfold sstep_panic. cbn [fstep].
+  - intros w' (Hs & _ & Hf & Hlen). unfold sstep_panic. cbn [fstep].
     destruct (sp_none _ _ _ Hu Hp Hf) as [Hd _]. rewrite Hd. rewrite (sabs_length _ _ Ha).
     destruct (Nat.ltb_spec (len (self w)) n) as [Hlt|_]; [lia|]. cbn [fst snd]. rewrite Hs. auto.
 Qed.
@@ -537,12 +539,15 @@ Proof.
   induction items as [|k rest IH]; intros w s Ha Hc; cbn [s_extend_loop f_extend].
   - eapply wp_mono; [apply call_next_lawful; exact Hnx | | intros ? []]; cbn beta.
     intros _ w1 [Hs1 _]. cbn [fst snd]. rewrite Hs1. auto.
-  - apply wp_bind. eapply wp_mono; [apply call_next_lawful; exact Hnx | | intros ? []]; cbn beta.
+  - apply wp_bind. apply wp_on_unwind_nopanic.
+    eapply wp_mono; [apply call_next_lawful; exact Hnx | | intros ? []]; cbn beta.
     intros _ w1 [Hs1 _].
+    apply wp_bind. apply wp_on_unwind_frame; [apply frame_unwind_pairs|].
     apply wp_bind. eapply wp_mono; [apply (s_insert_abs n k w1 s); rewrite Hs1; assumption | |]; cbn beta.
-    + intros b w2 (Hr & Ha2 & Hc2). destruct (f_insert n k s) as [r s'] eqn:Hfi. cbn [fst snd] in *.
+    + intros b w2 (Hr & Ha2 & Hc2). apply wp_ret.
+      destruct (f_insert n k s) as [r s'] eqn:Hfi. cbn [fst snd] in *.
       subst r. apply (IH w2 s' Ha2 Hc2).
-    + intros w2 [Hfi Hs2]. rewrite Hfi. cbn [fst snd]. rewrite Hs2, Hs1. auto.
+    + intros w2 [Hfi Hs2] w3 Hs3. rewrite Hfi. cbn [fst snd]. rewrite Hs3, Hs2, Hs1. auto.
 Qed.
 
 Lemma sstep_extend n items w s :
@@ -734,7 +739,7 @@ Proof.
     destruct (find_idx ck (ck k) (elems (self w))) as [i|] eqn:Hf.
     + split; split; try discriminate. intros Hn. exfalso. apply Hn. eapply find_idx_in. exact Hf.
     + split; split; try reflexivity. intros _. apply find_idx_notin. exact Hf.
-  - destruct H as ([Hs _] & Hf & Hlen). split; [apply find_idx_notin; exact Hf|]. split; assumption.
+  - destruct H as (Hs & _ & Hf & Hlen). split; [apply find_idx_notin; exact Hf|]. split; assumption.
 Qed.
 
 (* the same through the ideal set *)
